@@ -9,6 +9,12 @@
 //! * `lalr-trace`     impl = model: the traced run of the real parser (states entered, tokens
 //!                    fetched, rules reduced, goto states, outcome) against the model of the
 //!                    driver loop over the regenerated tables (`Dmn.Lalr.step`).
+//! * `temporal-extreme` impl = model (`Dmn.TemporalMachine.run`, checked mode: the harness build has
+//!                    overflow checks on): every temporal operation, through FEEL text, on operands at
+//!                    and next to the ends of `i64` months / `i128` nanoseconds / `u64` literal
+//!                    components / the year range; a panic of the implementation is a disagreement
+//!                    with the property (impl ⊨ spec), a panic site of the model must be a panic of
+//!                    the implementation and vice versa, values must be equal otherwise.
 //! * `process`        VALIDATION, not proof: all parser entry points and `evaluate` (empty
 //!                    scope) in child processes with a wall-clock limit, on grammar-derived
 //!                    inputs, mutations of the string literals of the repository's own tests,
@@ -259,7 +265,8 @@ fn bif_names() -> Vec<String> {
 /// An argument for the built-in stress family: values at the edges of what the built-ins convert
 /// (fractions beyond nanoseconds, 35-digit numbers, zero, negative, temporal values, nesting).
 fn gen_stress_arg(rng: &mut Rng) -> String {
-  const A: [&str; 44] = [
+  const A: [&str; 47] = [
+    "exp(100000)", "-exp(100000)", "(exp(100000)-exp(100000))",
     "0", "1", "-1", "2", "3", "11", "12", "13", "23", "24", "59", "60", "0.5", "-0.5", "1.5", "45.1234567891", "59.9999999999", "10/3", "-10/3", "0.0000000001", "-0.0000000001",
     "99999999999999999999999999999999999", "-99999999999999999999999999999999999", "1000000", "2021", "-2021", "null", "true", "\"\"", "\"abc\"", "\"2021-02-03\"", "\"10:11:12\"",
     "\"P1D\"", "[]", "[1, 2, 3]", "[null]", "[[1], [2, [3]]]", "{}", "{a: 1}", "date(\"2021-02-03\")", "time(\"10:11:12\")", "date and time(\"2021-02-03T10:11:12\")", "duration(\"PT1H\")",
@@ -915,6 +922,16 @@ pub fn run(cfg: &Cfg) -> Report {
     "/*small*/ for i in 9223372036854775806..9223372036854775807, j in 1..2 return j",
     "/*small*/ for i in 18446744073709551614..18446744073709551615 return i",
     "/*small*/ for i in 9223372036854775807..9223372036854775808 return i",
+    // years and months durations at the ends of i64 (D1, D2)
+    "@\"P768614336404564650Y\" + @\"P768614336404564650Y\"",
+    "@\"-P768614336404564650Y\" - @\"P768614336404564650Y\"",
+    "-(@\"-P768614336404564650Y\" - @\"P8M\")",
+    "string((@\"-P768614336404564650Y\" - @\"P7M\") - @\"P1M\")",
+    // seconds that are not a number (D3)
+    "time(1, 1, exp(100000)-exp(100000))",
+    "time(1, 1, exp(100000)-exp(100000), null)",
+    "time(1, 1, exp(100000)-exp(100000), @\"PT1H\")",
+    "time(hour: 1, minute: 1, second: exp(100000)-exp(100000), offset: @\"-PT1H\")",
     "for in.x in [1,2,3] return 1",
     "some in+y in [1,2] satisfies true",
     "",
@@ -1123,6 +1140,19 @@ pub fn run(cfg: &Cfg) -> Report {
     let cmp = *rng.pick(&["x != y", "true", "false", "x > y or x = 3", "y < x", "x <= y", "x = y", "x < y", "x + y > 40", "null", "x", "x - y"]);
     inputs.push(("bif-stress".into(), format!("sort([{}], function(x, y) {})", items.join(", "), cmp)));
   }
+  // statistics and order built-ins over lists long enough for the library sort to notice an inconsistent
+  // comparison, with values that are not numbers (NaN, the infinities) among the items
+  for _ in 0..(if thorough { 3000 } else { 120 }) {
+    let n = 2 + rng.below(45) as usize;
+    let mut items: Vec<String> = (0..n).map(|_| format!("{}", rng.below(50))).collect();
+    for _ in 0..(1 + rng.below(4)) {
+      let k = rng.below(n as u64) as usize;
+      items[k] = rng.pick(&["(exp(100000)-exp(100000))", "exp(100000)", "-exp(100000)", "0/1", "-0"]).to_string();
+    }
+    let f = *rng.pick(&["median", "mode", "median", "mode", "min", "max", "sum", "mean", "stddev", "product", "distinct values", "sort"]);
+    let e = if f == "sort" { format!("sort([{}], function(x, y) x < y)", items.join(", ")) } else { format!("{}([{}])", f, items.join(", ")) };
+    inputs.push(("bif-stress".into(), e));
+  }
   // time / date constructors with components inside their ranges and seconds of arbitrary precision
   for _ in 0..(if thorough { 20000 } else { 300 }) {
     let frac_digits = rng.below(20) as usize;
@@ -1148,6 +1178,9 @@ pub fn run(cfg: &Cfg) -> Report {
   }
   let mut seen = HashSet::new();
   inputs.retain(|(_, s)| seen.insert(s.clone()));
+
+  // ------------------------------------------------------------------ temporal-extreme: impl = model
+  temporal_extreme(&mut rep, &mut model, &mut rng, thorough);
 
   // ------------------------------------------------------------------ process-level runner (validation)
   let workers = std::thread::available_parallelism().map(|n| n.get()).unwrap_or(4).min(12);
@@ -1286,3 +1319,314 @@ fn scope_with(keys: &[String]) -> Scope {
   scope
 }
 
+
+// ------------------------------------------------------------------------------------------
+// temporal-extreme: the temporal operations on operands at the ends of the machine integers
+// ------------------------------------------------------------------------------------------
+
+/// The largest days and time duration a single literal can denote here: (2^64 - 1) days and 86399.999999999 s.
+const DAY_NS: i128 = 86_400_000_000_000;
+
+/// FEEL text denoting the years and months duration of `n` months.
+fn ym_expr(rng: &mut Rng, n: i64) -> String {
+  if n == i64::MIN {
+    return "(@\"-P9223372036854775807M\" - @\"P1M\")".to_string();
+  }
+  let (sign, a) = (if n < 0 { "-" } else { "" }, n.unsigned_abs());
+  match rng.below(3) {
+    0 if a % 12 == 0 && a > 0 => format!("@\"{}P{}Y\"", sign, a / 12),
+    1 if a >= 12 => format!("@\"{}P{}Y{}M\"", sign, a / 12, a % 12),
+    2 => format!("duration(\"{}P{}M\")", sign, a),
+    _ => format!("@\"{}P{}M\"", sign, a),
+  }
+}
+
+/// A literal for `|n| <= (2^64 - 1) days + 86399.999999999 s`, with the sign given.
+fn dtd_literal(neg: bool, a: u128) -> String {
+  let (d, r) = (a / DAY_NS as u128, a % DAY_NS as u128);
+  let (secs, frac) = (r / 1_000_000_000, r % 1_000_000_000);
+  let sign = if neg { "-" } else { "" };
+  if d > 0 {
+    format!("@\"{}P{}DT{}.{:09}S\"", sign, d, secs, frac)
+  } else {
+    format!("@\"{}PT{}.{:09}S\"", sign, secs, frac)
+  }
+}
+
+/// FEEL text denoting the days and time duration of `n` nanoseconds: a literal, or — beyond what a literal can
+/// denote — a context that doubles a literal and adds the remainder (all intermediate sums are exact).
+fn dtd_expr(n: i128) -> String {
+  let neg = n < 0;
+  let a = n.unsigned_abs();
+  let lit_max: u128 = (u64::MAX as u128) * (DAY_NS as u128) + (DAY_NS as u128 - 1);
+  if a <= lit_max {
+    return dtd_literal(neg, a);
+  }
+  let mut k = 0u32;
+  while (a >> k) > lit_max {
+    k += 1;
+  }
+  let c = a >> k;
+  let rem = a - (c << k);
+  let mut entries = vec![format!("a0: {}", dtd_literal(neg, c))];
+  for i in 1..=k {
+    entries.push(format!("a{}: a{} + a{}", i, i - 1, i - 1));
+  }
+  if rem > 0 {
+    entries.push(format!("x: a{} + {}", k, dtd_literal(neg, rem)));
+  } else {
+    entries.push(format!("x: a{}", k));
+  }
+  format!("{{{}}}.x", entries.join(", "))
+}
+
+fn pick_i64(rng: &mut Rng) -> i64 {
+  const E: [i64; 24] = [
+    0, 1, -1, 11, 12, -12, 13, i64::MAX, i64::MAX - 1, i64::MAX - 11, i64::MIN, i64::MIN + 1, i64::MIN + 8, i64::MAX / 2, i64::MAX / 2 + 1, i64::MIN / 2, i64::MIN / 2 - 1,
+    9223372036854775800, -9223372036854775800, 768614336404564650, 2147483647, -2147483648, 4294967296, 120,
+  ];
+  match rng.below(6) {
+    0 => rng.next() as i64,
+    1 => (rng.next() as i64) >> (rng.below(63) as u32),
+    _ => *rng.pick(&E),
+  }
+}
+
+fn pick_i128(rng: &mut Rng) -> i128 {
+  let two64: i128 = 1 << 64;
+  let e: [i128; 30] = [
+    0, 1, 999_999_999, 1_000_000_000, DAY_NS, DAY_NS - 1, 3_600_000_000_000, i64::MAX as i128, (i64::MAX as i128) + 1, two64 - 1, two64, 53_999 * 1_000_000_000, 53_999 * 1_000_000_000 + 999_999_999, 54_000 * 1_000_000_000,
+    two64 * 1_000_000_000, (two64 + 1) * 1_000_000_000, (two64 - 1) * 1_000_000_000, (1i128 << 63) * 1_000_000_000, ((1i128 << 63) - 53_999) * 1_000_000_000, (two64 - 53_999) * 1_000_000_000,
+    (u64::MAX as i128) * DAY_NS, (u64::MAX as i128) * DAY_NS + DAY_NS - 1, two64 * DAY_NS, (two64 + 5) * DAY_NS + 3_600_000_000_001, 1i128 << 100, 1i128 << 110, 1i128 << 126, i128::MAX, i128::MAX - 1, i128::MAX / 2 + 1,
+  ];
+  let v = match rng.below(8) {
+    0 => {
+      let bits = 1 + rng.below(126) as u32;
+      let x = ((rng.next() as u128) << 64 | rng.next() as u128) >> (128 - bits);
+      x as i128
+    }
+    1 => i128::MIN,
+    2 => i128::MIN + 1,
+    _ => *rng.pick(&e),
+  };
+  if v != i128::MIN && rng.chance(1, 2) {
+    -v
+  } else {
+    v
+  }
+}
+
+/// A component of a duration literal: `None` (absent) or a value around the ends of `i64` / `u64`.
+fn pick_component(rng: &mut Rng, top: u128) -> Option<u128> {
+  match rng.below(7) {
+    0 | 1 => None,
+    2 => Some(rng.below(100) as u128),
+    3 => Some(top),
+    4 => Some(top - rng.below(13) as u128),
+    5 => Some(top / *rng.pick(&[12u128, 24, 60, 2, 3600])),
+    _ => Some(top / *rng.pick(&[12u128, 24, 60, 2, 3600]) + 1),
+  }
+}
+
+struct TCase {
+  op: &'static str,
+  request: String,
+  feel: String,
+}
+
+fn opt_atom(c: &Option<u128>) -> String {
+  c.map(|v| v.to_string()).unwrap_or_else(|| "none".to_string())
+}
+
+fn gen_temporal_case(rng: &mut Rng) -> TCase {
+  let k = rng.below(22);
+  let ctx1 = |a: &str, body: &str| format!("{{A: {}, r: {}}}.r", a, body);
+  let ctx2 = |a: &str, b: &str, body: &str| format!("{{A: {}, B: {}, r: {}}}.r", a, b, body);
+  match k {
+    0 | 1 => {
+      let (a, b) = (pick_i64(rng), pick_i64(rng));
+      let (op, sym) = if k == 0 { ("ymAdd", "+") } else { ("ymSub", "-") };
+      let (ea, eb) = (ym_expr(rng, a), ym_expr(rng, b));
+      TCase { op, request: format!("(c05 temporal checked {} {} {})", op, a, b), feel: ctx2(&ea, &eb, &format!("A {} B", sym)) }
+    }
+    2..=5 => {
+      let a = pick_i64(rng);
+      let (op, body) = [("ymNeg", "-A"), ("ymYears", "A.years"), ("ymMonths", "A.months"), ("ymPrint", "string(A)")][(k - 2) as usize];
+      let ea = ym_expr(rng, a);
+      TCase { op, request: format!("(c05 temporal checked {} {})", op, a), feel: ctx1(&ea, body) }
+    }
+    6 | 7 => {
+      let (a, b) = (pick_i128(rng), pick_i128(rng));
+      let (op, sym) = if k == 6 { ("dtdAdd", "+") } else { ("dtdSub", "-") };
+      TCase { op, request: format!("(c05 temporal checked {} {} {})", op, a, b), feel: ctx2(&dtd_expr(a), &dtd_expr(b), &format!("A {} B", sym)) }
+    }
+    8..=14 => {
+      let a = pick_i128(rng);
+      let (op, body) = [
+        ("dtdNeg", "-A"),
+        ("dtdDays", "A.days"),
+        ("dtdHours", "A.hours"),
+        ("dtdMinutes", "A.minutes"),
+        ("dtdSeconds", "A.seconds"),
+        ("dtdPrint", "string(A)"),
+        ("time4Offset", "time(1, 2, 3, A)"),
+      ][(k - 8) as usize];
+      TCase { op, request: format!("(c05 temporal checked {} {})", op, a), feel: ctx1(&dtd_expr(a), body) }
+    }
+    15 | 16 => {
+      let top = i64::MAX as u128;
+      let (mut y, mo) = (pick_component(rng, top), pick_component(rng, top));
+      if y.is_none() && mo.is_none() {
+        y = Some(top / 12);
+      }
+      let neg = rng.chance(1, 2);
+      let text = format!("{}P{}{}", if neg { "-" } else { "" }, y.map(|v| format!("{}Y", v)).unwrap_or_default(), mo.map(|v| format!("{}M", v)).unwrap_or_default());
+      let feel = if rng.chance(1, 2) { format!("@\"{}\"", text) } else { format!("duration(\"{}\")", text) };
+      TCase { op: "ymLit", request: format!("(c05 temporal checked ymLit {} {} {})", opt_atom(&y), opt_atom(&mo), neg), feel }
+    }
+    17 | 18 => {
+      let top = u64::MAX as u128;
+      let (mut d, h, mi, s) = (pick_component(rng, top), pick_component(rng, top), pick_component(rng, top), pick_component(rng, top));
+      if d.is_none() && h.is_none() && mi.is_none() && s.is_none() {
+        d = Some(top);
+      }
+      let f = if s.is_some() && rng.chance(1, 2) { Some(*rng.pick(&[0u128, 1, 999_999_999, 500_000_000])) } else { None };
+      let neg = rng.chance(1, 2);
+      let mut text = format!("{}P{}", if neg { "-" } else { "" }, d.map(|v| format!("{}D", v)).unwrap_or_default());
+      if h.is_some() || mi.is_some() || s.is_some() {
+        text.push('T');
+        text.push_str(&h.map(|v| format!("{}H", v)).unwrap_or_default());
+        text.push_str(&mi.map(|v| format!("{}M", v)).unwrap_or_default());
+        if let Some(v) = s {
+          text.push_str(&match f {
+            Some(fr) => format!("{}.{:09}S", v, fr),
+            None => format!("{}S", v),
+          });
+        }
+      }
+      let feel = if rng.chance(1, 2) { format!("@\"{}\"", text) } else { format!("duration(\"{}\")", text) };
+      TCase { op: "dtLit", request: format!("(c05 temporal checked dtLit {} {} {} {} {} {})", opt_atom(&d), opt_atom(&h), opt_atom(&mi), opt_atom(&s), opt_atom(&f), neg), feel }
+    }
+    _ => {
+      let mut date = |rng: &mut Rng| -> (i64, u64, u64) {
+        let y = match rng.below(4) {
+          0 => rng.range(-999_999_999, 1_000_000_000),
+          1 => *rng.pick(&[-999_999_999i64, 999_999_999, -262_144, -262_143, 262_142, 262_143, 0, -1, 1, 1970, 2000, 1900]),
+          2 => 1582 + rng.range(0, 900),
+          _ => *rng.pick(&[-999_999_999i64, 999_999_999]) / (1 + rng.below(3) as i64),
+        };
+        (y, 1 + rng.below(12), 1 + rng.below(28))
+      };
+      let (a, b) = (date(rng), date(rng));
+      if k == 19 || k == 20 {
+        // `years and months duration(from, to)` is `to.ym_duration(from)`: `self` is the second argument
+        TCase {
+          op: "dateYm",
+          request: format!("(c05 temporal checked dateYm {} {} {} {} {} {})", a.0, a.1, a.2, b.0, b.1, b.2),
+          feel: format!("years and months duration(date({}, {}, {}), date({}, {}, {}))", b.0, b.1, b.2, a.0, a.1, a.2),
+        }
+      } else {
+        TCase { op: "dateWeekday", request: format!("(c05 temporal checked dateWeekday {} {} {})", a.0, a.1, a.2), feel: format!("date({}, {}, {}).weekday", a.0, a.1, a.2) }
+      }
+    }
+  }
+}
+
+/// The observable form of a value for the comparison with the model's answer.
+fn temporal_observed(v: &Value) -> String {
+  match v {
+    Value::Null(_) => "(ok null)".to_string(),
+    Value::Number(n) => format!("(ok (int {}))", n),
+    Value::String(s) => format!("(ok {})", crate::sexp::Sexp::str(s)),
+    Value::YearsAndMonthsDuration(d) => format!("(ok (int {}))", d.as_months()),
+    // the nanoseconds are private: they are read from the derived `Debug` form `FeelDaysAndTimeDuration(n)`
+    Value::DaysAndTimeDuration(d) => {
+      let t = format!("{:?}", d);
+      let n = t.trim_start_matches("FeelDaysAndTimeDuration(").trim_end_matches(')').to_string();
+      format!("(ok (int {}))", n)
+    }
+    Value::Time(t) => match t.feel_time_offset() {
+      Some(o) => format!("(ok (int {}))", o),
+      None => "(ok local)".to_string(),
+    },
+    other => format!("(other {:?})", other),
+  }
+}
+
+fn temporal_extreme(rep: &mut Report, model: &mut Model, rng: &mut Rng, thorough: bool) {
+  let n = if thorough { 60000 } else { 1500 };
+  let mut cases: Vec<TCase> = vec![];
+  // the reported witnesses and the ends of every operation first
+  let fixed: [(&'static str, String, String); 10] = [
+    ("ymAdd", "(c05 temporal checked ymAdd 9223372036854775800 9223372036854775800)".into(), "@\"P768614336404564650Y\" + @\"P768614336404564650Y\"".into()),
+    ("ymSub", "(c05 temporal checked ymSub -9223372036854775800 9223372036854775800)".into(), "@\"-P768614336404564650Y\" - @\"P768614336404564650Y\"".into()),
+    ("ymNeg", "(c05 temporal checked ymNeg -9223372036854775808)".into(), "-(@\"-P768614336404564650Y\" - @\"P8M\")".into()),
+    ("ymPrint", "(c05 temporal checked ymPrint -9223372036854775808)".into(), "string((@\"-P768614336404564650Y\" - @\"P7M\") - @\"P1M\")".into()),
+    ("dtdAdd", format!("(c05 temporal checked dtdAdd {} 1)", i128::MAX), format!("{{A: {}, B: @\"PT0.000000001S\", r: A + B}}.r", dtd_expr(i128::MAX))),
+    ("dtdNeg", format!("(c05 temporal checked dtdNeg {})", i128::MIN), format!("{{A: {}, r: -A}}.r", dtd_expr(i128::MIN))),
+    ("dtdPrint", format!("(c05 temporal checked dtdPrint {})", i128::MIN), format!("{{A: {}, r: string(A)}}.r", dtd_expr(i128::MIN))),
+    ("dtdDays", format!("(c05 temporal checked dtdDays {})", i128::MIN), format!("{{A: {}, r: A.days}}.r", dtd_expr(i128::MIN))),
+    ("time4Offset", format!("(c05 temporal checked time4Offset {})", (1i128 << 64) * 1_000_000_000), format!("time(1, 2, 3, {})", dtd_expr((1i128 << 64) * 1_000_000_000))),
+    ("dtdPrint", format!("(c05 temporal checked dtdPrint {})", i128::MAX), format!("string({})", dtd_expr(i128::MAX))),
+  ];
+  for (op, request, feel) in fixed {
+    cases.push(TCase { op, request, feel });
+  }
+  for _ in 0..n {
+    cases.push(gen_temporal_case(rng));
+  }
+  let reqs: Vec<String> = cases.iter().map(|c| c.request.clone()).collect();
+  let answers = model.ask_batch(&reqs);
+  let scope = Scope::default();
+  for (c, want) in cases.iter().zip(answers.iter()) {
+    crate::util::note_case(&c.feel);
+    let got = located(|| dmntk_feel_parser::parse_expression(&scope, &c.feel, false).map(|node| dmntk_feel_evaluator::evaluate(&scope, &node)));
+    let shown = format!("{}   [{}]", c.feel, c.request);
+    let model_panics = want.starts_with("(panic ");
+    rep.case(&format!("temporal|{}", c.request), !want.starts_with("(ok null)"));
+    rep.hit(&format!("temporal:op={}", c.op));
+    rep.hit(&format!("temporal:model={}", if model_panics { "panic" } else if want.starts_with("(ok null)") { "null" } else { "value" }));
+    if want.starts_with("(error") {
+      rep.disagree(Kind::ImplVsModel, "temporal-extreme", "temporal-extreme: the driver rejects a request", &shown, "-", want);
+      continue;
+    }
+    match got {
+      Err(loc) => {
+        let file = loc.split(':').next().unwrap_or("").to_string();
+        let model_site = want.trim_start_matches("(panic ").trim_end_matches(')').to_string();
+        // `i128::abs` is not `#[track_caller]`: its overflow is located inside the standard library
+        if model_panics && (model_site == file || file.starts_with("/rustc/")) {
+          // the panic site the model has: a violation of the property by the unchanged code that the model mirrors
+          rep.disagree(
+            Kind::ImplVsSpec,
+            "temporal-extreme",
+            &format!("panic {} (temporal-extreme: unchecked i128 arithmetic of days and time durations, as modelled)", model_site),
+            &shown,
+            &format!("panicked at {}", loc),
+            "a value or null",
+          );
+        } else {
+          rep.disagree(Kind::ImplVsSpec, "temporal-extreme", &format!("panic {} (temporal-extreme {})", file, c.op), &shown, &format!("panicked at {}", loc), "a value or null");
+          rep.disagree(Kind::ImplVsModel, "temporal-extreme", &format!("temporal-extreme {}: the implementation panics where the model returns", c.op), &shown, &format!("panicked at {}", loc), want);
+        }
+      }
+      Ok(Err(e)) => {
+        rep.disagree(Kind::ImplVsModel, "temporal-extreme", &format!("temporal-extreme {}: the generated expression is not accepted", c.op), &shown, &e.to_string(), want);
+      }
+      Ok(Ok(Err(e))) => {
+        rep.disagree(Kind::ImplVsModel, "temporal-extreme", &format!("temporal-extreme {}: evaluation is an error", c.op), &shown, &e.to_string(), want);
+      }
+      Ok(Ok(Ok(v))) => {
+        let obs = temporal_observed(&v);
+        if model_panics {
+          rep.disagree(Kind::ImplVsModel, "temporal-extreme", &format!("temporal-extreme {}: the model has a panic site the implementation does not reach", c.op), &shown, &obs, want);
+        } else if &obs != want {
+          rep.disagree(Kind::ImplVsModel, "temporal-extreme", &format!("temporal-extreme {}: the value differs from the model", c.op), &shown, &obs, want);
+        }
+      }
+    }
+    if rep.samples.len() < 14 && rng.chance(1, 40) {
+      rep.sample(json!({"family": "temporal-extreme", "feel": c.feel, "request": c.request, "model": want}));
+    }
+  }
+}
